@@ -219,7 +219,7 @@ R.contract(
     returns="iter[Individual]",
     requires=dict(EVAL_REQ),
     ensures=dict(EVAL_ENS),
-    modifies=["self.count", "problem.ff.fn.ncalls", "all:dict", "all:field:phenotype"],
+    modifies=["self.count", "problem.ff.fn.ncalls", "all:dict[Problem,Fitness]", "all:field:phenotype"],
     verify=False,
     note="interface contract shared by the sequential and the parallel evaluator; per-individual effects "
     "(fitness_store, phenotype cache) are described by the ensures clauses",
@@ -278,10 +278,10 @@ R.contract(
                 "count": "self.count == old(self.count) + _k",
                 "pending_old": "forall(0, len(pending), lambda b: not fresh(pending[b]))",
             },
-            modifies=["self.count", "all:dict"],
+            modifies=["self.count", "all:dict[Problem,Fitness]"],
         ),
     },
-    modifies=["self.count", "problem.ff.fn.ncalls", "all:dict", "all:field:phenotype"],
+    modifies=["self.count", "problem.ff.fn.ncalls", "all:dict[Problem,Fitness]", "all:field:phenotype"],
     props=["C13"],
 )
 
@@ -308,10 +308,10 @@ for key, file in (("SequentialEvaluator", ESEQ),):
                     "single": "implies(_k == 1 and not old(problem in individuals[0].fitness_store), self.count == old(self.count) + 1)",
                     "input_list_unchanged": "len(individuals) == oldlen(individuals) and forall(0, len(individuals), lambda k: same(individuals[k], oldel(individuals, k)))",
                 },
-                modifies=["self.count", "problem.ff.fn.ncalls", "OUT[]", "all:dict", "all:field:phenotype"],
+                modifies=["self.count", "problem.ff.fn.ncalls", "OUT[]", "all:dict[Problem,Fitness]", "all:field:phenotype"],
             )
         },
-        modifies=["self.count", "problem.ff.fn.ncalls", "all:dict", "all:field:phenotype"],
+        modifies=["self.count", "problem.ff.fn.ncalls", "all:dict[Problem,Fitness]", "all:field:phenotype"],
         props=["C13"],
     )
 
